@@ -874,3 +874,119 @@ add("b24", ["C20"], (P, """        result = ""
 # ------------------------------------------------------------------ extra
 add("m02i", ["C02", "C14"], (W, "                value = await job.co_run()\n", "                value = await job.co_run()\n                if value is None:\n                    value = await job.co_run()\n"),
     rules=["R02.4", "R14.2w"], note="retry when the body returns None")
+
+# ------------------------------------------------------------------ more benign refactorings
+ALLRUN = ["C01", "C02", "C03", "C04", "C05", "C06", "C08", "C09", "C11", "C12", "C13"]
+add("b08", ALLRUN, [(P, """                await self._feedback(pending, "TIDYING forever")
+                await self._tidy_tasks(pending)
+                await self.co_shutdown()
+                return True""", """                await self._feedback(pending, "TIDYING forever")
+                await self._leave(pending)
+                return True"""),
+                    (P, """    def _total_length(self):""", """    async def _leave(self, pending):
+        await self._tidy_tasks(pending)
+        await self.co_shutdown()
+
+    def _total_length(self):""")], expect='silent', note="exit sequence factored into a helper")
+add("b30", ALLRUN, (P, """            if not done:
+                await self._feedback(None,
+                                     "PureScheduler.co_run: TIMEOUT occurred",
+                                     force=True)""", """            timed_out = not done
+            if timed_out:
+                await self._feedback(None,
+                                     "PureScheduler.co_run: TIMEOUT occurred",
+                                     force=True)"""), expect='silent')
+add("b31", ALLRUN, (P, """            critical_failure = False
+            for done_task in done:
+                done_job = done_task._job               # pylint: disable=W0212
+                if done_job.raised_exception():
+                    critical_failure = critical_failure \\
+                        or done_job.is_critical()
+""", """            critical_failure = False
+            for done_task in done:
+                done_job = done_task._job               # pylint: disable=W0212
+                if done_job.raised_exception():
+                    if done_job.is_critical():
+                        critical_failure = True
+"""), expect='silent')
+add("b32", ALLRUN, (P, """        nb_jobs_finite = len([j for j in self.jobs if not j.forever])""",
+                    """        nb_jobs_finite = sum(1 for j in self.jobs if not j.forever)"""), expect='nofalse')
+add("b33", ALLRUN, (P, """            done, pending \\
+                = await asyncio.wait(pending,
+                                     timeout=self._remaining_timeout(),
+                                     return_when=asyncio.FIRST_COMPLETED)
+""", """            remaining = self._remaining_timeout()
+            done, pending = await asyncio.wait(
+                pending, timeout=remaining, return_when=asyncio.FIRST_COMPLETED)
+"""), expect='silent')
+add("b34", ALLRUN, (P, """            for candidate_next in possible_next_jobs:
+                # do not add an job twice; is_scheduled() is set as soon as
+                # the task gets created, while is_running() only becomes true
+                # once the job has obtained a slot in the window
+                if candidate_next.is_scheduled():
+                    continue
+""", """            for candidate_next in possible_next_jobs:
+                if not candidate_next.is_idle():
+                    continue
+"""), expect='silent')
+add("b35", ALLRUN, (P, """        # empty schedulers are fine too
+        if not self.jobs:
+            return True
+""", """        # empty schedulers are fine too
+        if len(self.jobs) == 0:
+            return True
+"""), expect='nofalse')
+add("b36", ["C11", "C13", "C05", "C08", "C09"], (S, """            await self._tidy_tasks(
+                [job._task for job in self.jobs if job._task is not None])
+            raise""", """            started = [job._task for job in self.jobs if job.is_scheduled()]
+            await self._tidy_tasks(started)
+            raise"""), expect='silent')
+add("b37", ["C13", "C11"], (P, """        tasks = [asyncio.create_task(job.co_shutdown())
+                 for job in self.jobs]
+""", """        tasks = []
+        for job in self.jobs:
+            tasks.append(asyncio.create_task(job.co_shutdown()))
+"""), expect='silent')
+add("b38", ["C04", "C10"], (S, """        # fine
+        if pure is True:
+            return pure
+        # non-critical : we're done
+        if not self.critical:
+            return pure""", """        # fine, or non-critical : we're done
+        if pure is True or not self.critical:
+            return pure"""), expect='silent')
+add("b39", ["C15"], (P, """        nb_marked = 0
+        target_marked = len(self.jobs)
+""", """        target_marked = len(self.jobs)
+        nb_marked = 0
+"""), expect='silent')
+add("b40", ["C16"], (P, """            before = len(job.required)
+            job.required &= self.jobs
+            job._s_successors &= self.jobs
+            after = len(job.required)
+            if before != after:""", """            nb_before = len(job.required)
+            job.required &= self.jobs
+            job._s_successors &= self.jobs
+            if nb_before != len(job.required):"""), expect='silent')
+add("b41", ["C19"], (Q, """        for job1, job2 in zip(new_jobs, new_jobs[1:]):
+            job2.requires(job1)""", """        for before, after in zip(new_jobs, new_jobs[1:]):
+            after.requires(before)"""), expect='silent')
+add("b42", ["C14", "C01", "C03"], (J, """        return self._task is not None \\
+            and self._task._state == asyncio.futures._FINISHED""", """        if self._task is None:
+            return False
+        return self._task._state == asyncio.futures._FINISHED"""), expect='silent')
+add("b43", ["C20"], (P, """            # regular jobs
+            if not isinstance(job, PureScheduler):
+                # declare node""", """            is_nested = isinstance(job, PureScheduler)
+            # regular jobs
+            if not is_nested:
+                # declare node"""), expect='nofalse')
+add("b44", ["C18"], (P, """        for down in downstreams:
+            down.required.remove(job)""", """        for downstream in downstreams:
+            downstream.required.remove(job)"""), expect='silent')
+add("b45", ["C17", "C18"], (P, """        for job in self.jobs:
+            if not job.required:
+                yield job""", """        for job in self.jobs:
+            if job.required:
+                continue
+            yield job"""), expect='silent')
